@@ -129,9 +129,6 @@ End Ns.
 Lemma getc_pos st c k : getc st c = Some k -> 0 < c.
 Proof. unfold getc. destruct (Z.leb_spec c 0); [discriminate|]. intros _. assumption. Qed.
 
-Lemma getc_In st c k : getc st c = Some k -> In k (classes st).
-Proof. unfold getc. destruct (c <=? 0); [discriminate|]. apply nth_error_In. Qed.
-
 Lemma getc_setc_same st c k k' : getc st c = Some k -> getc (setc st c k') c = Some k'.
 Proof.
   intros H. pose proof (getc_pos _ _ _ H) as P. unfold getc, setc in *. simpl.
@@ -144,6 +141,101 @@ Proof.
   intros P N. unfold getc, setc. simpl. destruct (Z.leb_spec d 0); [reflexivity|].
   apply nth_error_set_at_other. unfold idx. lia.
 Qed.
+
+(* two class records that differ at most in the cached linearisation and the
+   subclass registry *)
+Definition eqv (k k' : cls) : Prop :=
+  c_feats k' = c_feats k /\ c_ops k' = c_ops k /\ c_supers k' = c_supers k /\
+  c_ns k' = c_ns k /\ c_bases k' = c_bases k.
+
+Lemma eqv_refl k : eqv k k.
+Proof. repeat split. Qed.
+
+Lemma eqv_trans k1 k2 k3 : eqv k1 k2 -> eqv k2 k3 -> eqv k1 k3.
+Proof. unfold eqv. intuition congruence. Qed.
+
+Definition orel (a b : option cls) : Prop :=
+  match a, b with
+  | Some k, Some k' => eqv k k'
+  | None, None => True
+  | _, _ => False
+  end.
+
+Definition steqv (st st' : state) : Prop := forall d, orel (getc st d) (getc st' d).
+
+Lemma steqv_refl st : steqv st st.
+Proof. intros d. unfold orel. destruct (getc st d); [apply eqv_refl|exact Logic.I]. Qed.
+
+Lemma steqv_trans s1 s2 s3 : steqv s1 s2 -> steqv s2 s3 -> steqv s1 s3.
+Proof.
+  intros H1 H2 d. specialize (H1 d). specialize (H2 d). unfold orel in *.
+  destruct (getc s1 d), (getc s2 d), (getc s3 d); try tauto. eapply eqv_trans; eauto.
+Qed.
+
+Lemma steqv_setc st c k k' : getc st c = Some k -> eqv k k' -> steqv st (setc st c k').
+Proof.
+  intros G E d. destruct (Z.eq_dec c d) as [X|X].
+  - subst. rewrite (getc_setc_same _ _ _ _ G), G. exact E.
+  - rewrite (getc_setc_other _ _ _ _ (getc_pos _ _ _ G) X). apply steqv_refl.
+Qed.
+
+Lemma steqv_upd_cls st c f : (forall k, eqv k (f k)) -> steqv st (upd_cls st c f).
+Proof.
+  intros H. unfold upd_cls. destruct (getc st c) as [k|] eqn:G; [|apply steqv_refl].
+  eapply steqv_setc; eauto.
+Qed.
+
+Lemma steqv_flag st : steqv st (set_flag st).
+Proof. intros d. change (getc (set_flag st) d) with (getc st d). apply steqv_refl. Qed.
+
+Lemma fold_hier_steqv (h : state -> Z -> option state) :
+  (forall s x s', h s x = Some s' -> steqv s s') ->
+  forall subs s0 s', fold_left (fun acc d => obind acc (fun s => h s d)) subs (Some s0) = Some s' -> steqv s0 s'.
+Proof.
+  intros Hh. induction subs as [|d r IH]; intros s0 s' H; simpl in H.
+  - inversion H; subst. apply steqv_refl.
+  - destruct (h s0 d) as [s1|] eqn:E.
+    + eapply steqv_trans; [eapply Hh; eauto|]. apply IH. assumption.
+    + exfalso. clear -H. induction r as [|x r IH]; simpl in H; [discriminate|auto].
+Qed.
+
+Lemma hier_steqv fuel : forall st x st', hier fuel st x = Some st' -> steqv st st'.
+Proof.
+  induction fuel as [|f IH]; intros st x st' H; [discriminate|]. simpl in H.
+  destruct (getc st x) as [k|] eqn:G; [|discriminate].
+  destruct (linearize_cached st x (c_bases k)) as [l|]; [|discriminate].
+  eapply steqv_trans; [|eapply fold_hier_steqv; [exact IH|exact H]].
+  eapply steqv_setc; [eassumption|]. repeat split.
+Qed.
+
+Lemma fold_upd_steqv (f : Z -> cls -> cls) :
+  (forall b k, eqv k (f b k)) ->
+  forall l st, steqv st (fold_left (fun s b => upd_cls s b (f b)) l st).
+Proof.
+  intros H. induction l as [|b r IH]; intros st; simpl; [apply steqv_refl|].
+  eapply steqv_trans; [|apply IH]. apply steqv_upd_cls. intros k. apply H.
+Qed.
+
+Lemma remove_sub_steqv c olds st : steqv st (remove_sub c olds st).
+Proof. unfold remove_sub. apply (fold_upd_steqv (fun b k => with_subs _ k)). intros b k. repeat split. Qed.
+
+Lemma add_sub_steqv c news st : steqv st (add_sub c news st).
+Proof. unfold add_sub. apply (fold_upd_steqv (fun b k => with_subs _ k)). intros b k. repeat split. Qed.
+
+Lemma assign_spec st c bs st' :
+  assign st c bs = Some st' ->
+  exists k, getc st c = Some k /\ steqv (setc st c (with_bases bs k)) st'.
+Proof.
+  unfold assign. destruct (getc st c) as [k|] eqn:G; [|discriminate].
+  destruct (existsb _ bs); [discriminate|].
+  destruct (hier (fuel_of st) (setc st c (with_bases bs k)) c) as [st2|] eqn:H; [|discriminate].
+  intros E. inversion E; subst. exists k. split; [reflexivity|].
+  eapply steqv_trans; [eapply hier_steqv; eauto|].
+  eapply steqv_trans; [apply remove_sub_steqv|apply add_sub_steqv].
+Qed.
+
+Lemma assign_None_getc st c bs : getc st c = None -> assign st c bs = None.
+Proof. unfold assign. intros ->. reflexivity. Qed.
 
 (* ---------- the mirror invariant (soundness half) ---------- *)
 
@@ -166,19 +258,34 @@ Record cls_ok (k : cls) : Prop := {
   ok_bases : bases_ok (c_bases k) (c_supers k)
 }.
 
-Definition Inv (st : state) : Prop := Forall cls_ok (classes st).
+Definition Inv (st : state) : Prop := forall c k, getc st c = Some k -> cls_ok k.
+
+Lemma cls_ok_eqv k k' : eqv k k' -> cls_ok k -> cls_ok k'.
+Proof.
+  intros (E1 & E2 & E3 & E4 & E5) [K1 K2 K3]. constructor.
+  - rewrite E4. assumption.
+  - rewrite E4. intros n e H. specialize (K2 n e H). destruct e; simpl in *; [rewrite E1|rewrite E2|]; assumption.
+  - rewrite E3, E5. assumption.
+Qed.
 
 Lemma Inv_getc st c k : Inv st -> getc st c = Some k -> cls_ok k.
-Proof. intros H G. apply getc_In in G. unfold Inv in H. rewrite Forall_forall in H. auto. Qed.
+Proof. intros H G. eapply H; eauto. Qed.
 
-Lemma Inv_setc st c k : Inv st -> cls_ok k -> Inv (setc st c k).
-Proof. intros H K. unfold Inv, setc. simpl. apply Forall_set_at; assumption. Qed.
+Lemma Inv_steqv st st' : steqv st st' -> Inv st -> Inv st'.
+Proof.
+  intros E I c k' G. specialize (E c). rewrite G in E. unfold orel in E.
+  destruct (getc st c) as [k|] eqn:G0; [|destruct E]. eapply cls_ok_eqv; eauto.
+Qed.
+
+Lemma Inv_setc st c k0 k : Inv st -> getc st c = Some k0 -> cls_ok k -> Inv (setc st c k).
+Proof.
+  intros H G K d kd Gd. destruct (Z.eq_dec c d) as [E|N].
+  - subst. rewrite (getc_setc_same _ _ _ _ G) in Gd. inversion Gd; subst. assumption.
+  - rewrite (getc_setc_other _ _ _ _ (getc_pos _ _ _ G) N) in Gd. eapply H; eauto.
+Qed.
 
 Lemma Inv_empty fl : Inv (empty_state fl).
-Proof. constructor. Qed.
-
-Lemma Inv_insts st is_ fl : Inv st -> Inv (mkState (classes st) is_ fl).
-Proof. intros H. exact H. Qed.
+Proof. intros c k G. unfold getc, empty_state in G. simpl in G. destruct (c <=? 0); [discriminate|]. destruct (idx c); discriminate. Qed.
 
 (* ---------- supertypes ---------- *)
 
@@ -230,61 +337,11 @@ Proof.
   - intros x Hx N. apply sort_desc_In. auto.
 Qed.
 
-Lemma assign_eq st c bs st' : assign st c bs = Some st' -> st' = set_bases st c bs.
-Proof.
-  unfold assign. destruct (forallb _ _); [|discriminate]. intros H. inversion H. reflexivity.
-Qed.
-
-Lemma Inv_set_flag st : Inv st -> Inv (set_flag st).
-Proof. intros H. exact H. Qed.
-
 Lemma set_at_twice {A} (l : list A) : forall n (a b : A), set_at n a (set_at n b l) = set_at n a l.
 Proof. induction l as [|y l IH]; intros [|n] a b; simpl; try reflexivity. f_equal. apply IH. Qed.
 
 Lemma setc_twice st c k1 k2 : setc (setc st c k1) c k2 = setc st c k2.
 Proof. unfold setc. simpl. rewrite set_at_twice. reflexivity. Qed.
-
-(* the supertypes change and the bases are recomputed at once: when
-   update_supertypes succeeds the bases condition holds again, whatever the
-   bases were before *)
-Lemma Inv_supers_then_update st c ss st' :
-  Inv st -> update_supertypes (set_supers st c ss) c = (st', None) -> Inv st'.
-Proof.
-  intros H U. unfold set_supers in U.
-  destruct (getc st c) as [k|] eqn:G.
-  2:{ unfold update_supertypes in U.
-      assert (N : forall s bs, getc s c = None -> set_bases s c bs = s) by (intros s bs E; unfold set_bases; rewrite E; reflexivity).
-      repeat match type of U with
-             | context [assign ?a ?b ?d] => let A := fresh "A" in destruct (assign a b d) eqn:A;
-                 [apply assign_eq in A; rewrite N in A by exact G; subst|]
-             end; inversion U; subst; assumption. }
-  pose proof (Inv_getc _ _ _ H G) as K.
-  set (k1 := mkCls (c_feats k) (c_ops k) ss (c_ns k) (c_bases k)) in *.
-  set (st1 := setc st c k1) in *.
-  assert (G1 : getc st1 c = Some k1) by (eapply getc_setc_same; eauto).
-  assert (W : forall bs, bases_ok bs ss -> forall fl,
-              Inv (set_bases (mkState (classes st1) (insts st1) fl) c bs)).
-  { intros bs Hb fl. unfold set_bases.
-    change (getc (mkState (classes st1) (insts st1) fl) c) with (getc st1 c). rewrite G1.
-    unfold setc. simpl. unfold Inv. simpl.
-    unfold st1, setc. simpl.
-    rewrite set_at_twice. apply Forall_set_at; [exact H|].
-    destruct K as [K1 K2 K3]. constructor; simpl; assumption. }
-  unfold update_supertypes in U.
-  assert (S1 : supers_fn st1 c = ss) by (unfold supers_fn; rewrite G1; reflexivity).
-  rewrite S1 in U.
-  pose proof (compute_supertypes_ok ss) as C1.
-  destruct (assign st1 c (compute_supertypes ss)) as [s1|] eqn:A1.
-  - injection U as U1. rewrite <- U1. apply assign_eq in A1. rewrite A1.
-    exact (W _ C1 (flag st1)).
-  - match type of U with context [assign st1 c ?bs2] => destruct (assign st1 c bs2) as [s2|] eqn:A2 end.
-    + injection U as U1. rewrite <- U1. apply assign_eq in A2. rewrite A2.
-      exact (W _ (bases_ok_sorted _ _ _ C1) (flag st1)).
-    + match type of U with context [assign (set_flag st1) c ?bs2] =>
-        destruct (assign (set_flag st1) c bs2) as [s3|] eqn:A3 end; [|discriminate].
-      injection U as U1. rewrite <- U1. apply assign_eq in A3. rewrite A3.
-      exact (W _ (bases_ok_sorted _ _ _ C1) true).
-Qed.
 
 Lemma update_supertypes_err st c st' e :
   update_supertypes st c = (st', Some e) -> e = XType.
@@ -294,10 +351,61 @@ Proof.
     intros H; inversion H; reflexivity.
 Qed.
 
+(* the outcome of update_supertypes: nothing (perhaps the flag), or the bases
+   of c replaced by an arrangement of the computed supertypes *)
+Lemma supers_fn_getc st c k : getc st c = Some k -> supers_fn st c = c_supers k.
+Proof. intros G. unfold supers_fn. rewrite G. reflexivity. Qed.
+
+Lemma update_supertypes_spec st c st' r :
+  update_supertypes st c = (st', r) ->
+  (r <> None /\ steqv st st') \/
+  (r = None /\ exists k bs, getc st c = Some k /\ bases_ok bs (c_supers k) /\
+                            steqv (setc st c (with_bases bs k)) st').
+Proof.
+  unfold update_supertypes. intros U.
+  pose proof (compute_supertypes_ok (supers_fn st c)) as C1.
+  destruct (assign st c (compute_supertypes (supers_fn st c))) as [s1|] eqn:A1.
+  - inversion U; subst. right. split; [reflexivity|].
+    destruct (assign_spec _ _ _ _ A1) as (k & G & E). exists k, (compute_supertypes (supers_fn st c)).
+    rewrite <- (supers_fn_getc _ _ _ G). tauto.
+  - match type of U with context [assign st c ?bs2] => destruct (assign st c bs2) as [s2|] eqn:A2 end.
+    + inversion U; subst. right. split; [reflexivity|].
+      destruct (assign_spec _ _ _ _ A2) as (k & G & E). eexists k, _. split; [exact G|]. split; [|exact E].
+      apply bases_ok_sorted. rewrite <- (supers_fn_getc _ _ _ G). assumption.
+    + match type of U with context [assign (set_flag st) c ?bs2] =>
+        destruct (assign (set_flag st) c bs2) as [s3|] eqn:A3 end.
+      * inversion U; subst. right. split; [reflexivity|].
+        destruct (assign_spec _ _ _ _ A3) as (k & G & E).
+        change (getc (set_flag st) c) with (getc st c) in G.
+        eexists k, _. split; [exact G|]. split; [|exact E].
+        apply bases_ok_sorted. rewrite <- (supers_fn_getc _ _ _ G). assumption.
+      * inversion U; subst. left. split; [discriminate|apply steqv_flag].
+Qed.
+
+(* the supertypes change and the bases are recomputed at once: when
+   update_supertypes succeeds the bases condition holds again, whatever the
+   bases were before *)
+Lemma Inv_supers_then_update st c ss st' :
+  Inv st -> update_supertypes (set_supers st c ss) c = (st', None) -> Inv st'.
+Proof.
+  intros H U. destruct (update_supertypes_spec _ _ _ _ U) as [[N _]|(_ & k1 & bs & G1 & B & E)]; [congruence|].
+  unfold set_supers in G1, E. destruct (getc st c) as [k|] eqn:G.
+  - rewrite (getc_setc_same _ _ _ _ G) in G1. inversion G1; subst. rewrite setc_twice in E.
+    eapply Inv_steqv; [exact E|]. eapply Inv_setc; eauto.
+    destruct (Inv_getc _ _ _ H G) as [K1 K2 K3]. constructor; simpl; assumption.
+  - congruence.
+Qed.
+
+Lemma nth_error_Some_lt {A} (l : list A) n x : nth_error l n = Some x -> (n < length l)%nat.
+Proof. intros H. apply nth_error_Some. congruence. Qed.
+
 (* ---------- every edit keeps the invariant ---------- *)
 
+Lemma getc_classes_eq st st' d : classes st' = classes st -> getc st' d = getc st d.
+Proof. intros E. unfold getc. rewrite E. reflexivity. Qed.
+
 Lemma Inv_classes_eq st st' : classes st' = classes st -> Inv st -> Inv st'.
-Proof. unfold Inv. intros ->. tauto. Qed.
+Proof. intros E I c k G. rewrite (getc_classes_eq _ _ _ E) in G. eapply I; eauto. Qed.
 
 Lemma classes_set_slot st i n s : classes (set_slot st i n s) = classes st.
 Proof. unfold set_slot. destruct (geti st i); reflexivity. Qed.
@@ -386,19 +494,25 @@ Proof.
   - (* NewClass *)
     unfold new_class in S.
     set (c := Z.of_nat (Datatypes.S (nclasses st))) in *.
-    set (st0 := mkState (classes st ++ [mkCls [] [] [] [] []]) (insts st) (flag st)).
+    set (dummy := mkCls [] [] [] [] [] [c] []).
+    set (st0 := mkState (classes st ++ [dummy]) (insts st) (flag st)).
+    assert (X : idx c = length (classes st)) by (unfold idx, c, nclasses; lia).
+    assert (G0 : getc st0 c = Some dummy).
+    { unfold getc, st0. simpl classes. destruct (Z.leb_spec c 0); [unfold c in *; lia|].
+      rewrite X. rewrite nth_error_app2 by lia. rewrite Nat.sub_diag. reflexivity. }
     assert (I0 : Inv st0).
-    { unfold Inv, st0. simpl. apply Forall_app. split; [exact I|]. constructor; [|constructor].
-      constructor; simpl; [constructor|discriminate|]. split; [intros b []|intros s []]. }
-    assert (G0 : getc st0 c = Some (mkCls [] [] [] [] [])).
-    { unfold getc, st0, c, idx. simpl classes. destruct (Z.leb_spec (Z.of_nat (Datatypes.S (nclasses st))) 0); [lia|].
-      replace (Z.to_nat (Z.of_nat (Datatypes.S (nclasses st)) - 1)) with (length (classes st)) by (unfold nclasses; lia).
-      rewrite nth_error_app2 by lia. rewrite Nat.sub_diag. reflexivity. }
-    assert (E1 : mkState (classes st ++ [mkCls [] [] (zdedup supers) [] []]) (insts st) (flag st)
+    { intros d k G. destruct (Z.eq_dec d c) as [E|N].
+      - subst d. rewrite G0 in G. inversion G; subst.
+        constructor; simpl; [constructor|discriminate|]. split; [intros b []|intros s []].
+      - unfold getc, st0 in G. simpl classes in G. destruct (Z.leb_spec d 0); [discriminate|].
+        assert (L : (idx d < length (classes st))%nat).
+        { apply nth_error_Some_lt in G. rewrite app_length in G. simpl in G. unfold idx in *. lia. }
+        rewrite nth_error_app1 in G by assumption. apply (I d k). unfold getc.
+        destruct (Z.leb_spec d 0); [lia|assumption]. }
+    assert (E1 : mkState (classes st ++ [mkCls [] [] (zdedup supers) [] [] [c] []]) (insts st) (flag st)
                  = set_supers st0 c (zdedup supers)).
     { unfold set_supers. rewrite G0. unfold setc, st0.
-      cbn [classes insts flag c_feats c_ops c_ns c_bases]. f_equal.
-      assert (X : idx c = length (classes st)) by (unfold idx, c, nclasses; lia).
+      cbn [classes insts flag c_feats c_ops c_ns c_bases c_mro c_subs with_supers]. f_equal.
       rewrite X. generalize (classes st) as l. induction l as [|y l IH]; simpl; [reflexivity|].
       f_equal. assumption. }
     rewrite E1 in S.
@@ -422,7 +536,7 @@ Proof.
     + inversion S; subst. eapply Inv_supers_then_update; eauto.
   - (* AddFeat *)
     destruct (getc st c) as [k|] eqn:G; [|inversion S; subst; assumption].
-    inversion S; subst. apply Inv_setc; [assumption|].
+    inversion S; subst. apply (Inv_setc _ _ k); [assumption|assumption|].
     destruct (Inv_getc _ _ _ I G) as [K1 K2 K3]. constructor; simpl.
     + apply ns_set_NoDup. assumption.
     + intros n e H. destruct (list_eq_dec Z.eq_dec (f_name f) n) as [E|N].
@@ -436,7 +550,7 @@ Proof.
     destruct (getc st c) as [k|] eqn:G; [|inversion S; subst; assumption].
     destruct (remove_feat n (c_feats k)) as [fs|] eqn:R; [|inversion S; subst; assumption].
     destruct (Inv_getc _ _ _ I G) as [K1 K2 K3].
-    simpl in S. destruct (ns_del n (c_ns k)) as [ns'|] eqn:D; inversion S; subst; apply Inv_setc; try assumption.
+    simpl in S. destruct (ns_del n (c_ns k)) as [ns'|] eqn:D; inversion S; subst; apply (Inv_setc _ _ k); try assumption.
     + destruct (ns_del_spec _ _ _ D K1) as (D1 & D2 & D3 & D4). constructor; simpl; [assumption| |assumption].
       intros m e H.
       destruct (list_eq_dec Z.eq_dec m n) as [E|N]; [subst; congruence|].
@@ -452,7 +566,7 @@ Proof.
     destruct (del_all (c_ns k) (map f_name (c_feats k))) as [ns' ok] eqn:D.
     inversion S; subst. destruct ok; [|exfalso; apply SC; reflexivity].
     destruct (del_all_spec _ _ _ D K1) as (D1 & D2 & D3).
-    apply Inv_setc; [assumption|]. constructor; simpl; [assumption| |assumption].
+    apply (Inv_setc _ _ k); [assumption|assumption|]. constructor; simpl; [assumption| |assumption].
     intros m e H. pose proof (K2 _ _ (D3 _ _ H)) as K. destruct e; simpl in *; [|assumption|assumption].
     destruct K as [Ka Kb]. subst. rewrite D2 in H; [discriminate|]. apply in_map. assumption.
   - (* AddOp *)
@@ -465,9 +579,9 @@ Proof.
       destruct K2 as (o' & Ho & R). exists o'. split; [apply in_or_app; left; assumption|assumption]. }
     assert (G1 : getc (setc st c k1) c = Some k1) by (eapply getc_setc_same; eauto).
     destruct (py_def (to_code (o_name o) (o_params o))) as [[]|s] eqn:PD.
-    + inversion S; subst. apply Inv_setc; assumption.
-    + inversion S; subst. unfold upd_cls. rewrite G1.
-      apply Inv_setc; [apply Inv_setc; assumption|].
+    + inversion S; subst. apply (Inv_setc _ _ k); assumption.
+    + inversion S; subst. unfold upd_cls. rewrite G1. rewrite setc_twice.
+      apply (Inv_setc _ _ k); [assumption|assumption|].
       destruct OK1 as [L1 L2 L3]. constructor; simpl; [apply ns_set_NoDup; assumption| |assumption].
       intros m e H.
       destruct (list_eq_dec Z.eq_dec (normalized_name (o_name o)) m) as [E|N].
@@ -479,7 +593,7 @@ Proof.
     destruct (remove_oper n (c_ops k)) as [os|] eqn:R; [|inversion S; subst; assumption].
     destruct (Inv_getc _ _ _ I G) as [K1 K2 K3].
     simpl in S. destruct (ns_del (normalized_name n) (c_ns k)) as [ns'|] eqn:D; inversion S; subst;
-      apply Inv_setc; try assumption.
+      apply (Inv_setc _ _ k); try assumption.
     + destruct (ns_del_spec _ _ _ D K1) as (D1 & D2 & D3 & D4). constructor; simpl; [assumption| |assumption].
       intros m e H.
       destruct (list_eq_dec Z.eq_dec m (normalized_name n)) as [E|N]; [subst; congruence|].
@@ -496,13 +610,13 @@ Proof.
     destruct (del_all (c_ns k) (map (fun o => normalized_name (o_name o)) (c_ops k))) as [ns' ok] eqn:D.
     inversion S; subst. destruct ok; [|exfalso; apply SC; reflexivity].
     destruct (del_all_spec _ _ _ D K1) as (D1 & D2 & D3).
-    apply Inv_setc; [assumption|]. constructor; simpl; [assumption| |assumption].
+    apply (Inv_setc _ _ k); [assumption|assumption|]. constructor; simpl; [assumption| |assumption].
     intros m e H. pose proof (K2 _ _ (D3 _ _ H)) as K. destruct e; simpl in *; [assumption| |assumption].
     destruct K as (o' & Ho & R1 & R2). subst. rewrite D2 in H; [discriminate|].
     apply in_map_iff. exists o'. split; [reflexivity|assumption].
   - (* Attach *)
     destruct (getc st c) as [k|] eqn:G; [|inversion S; subst; assumption].
-    inversion S; subst. apply Inv_setc; [assumption|].
+    inversion S; subst. apply (Inv_setc _ _ k); [assumption|assumption|].
     destruct (Inv_getc _ _ _ I G) as [K1 K2 K3]. constructor; simpl; [apply ns_set_NoDup; assumption| |assumption].
     intros m e H. destruct (list_eq_dec Z.eq_dec n m) as [E|N].
     + subst. rewrite ns_get_set_same in H. inversion H; subst. exact Logic.I.
@@ -612,8 +726,20 @@ Proof.
   intros H. apply first_some_found in H. destruct H as (d & Hd & E). exists l, d. tauto.
 Qed.
 
+(* CPython keeps every cached linearisation equal to what a linearisation
+   from scratch over the current bases would give (premise; the extracted
+   model recomputes it in every explored state, see consistentb) *)
+Definition consistent (st : state) : Prop :=
+  forall c l, mro st c = Some l -> mro_spec st c = Some l.
+
+Lemma mro_closure st c l :
+  consistent st -> flag st = false -> mro st c = Some l -> forall x, In x l <-> reach (bases_fn st) c x.
+Proof.
+  intros Co F M. apply Co in M. unfold mro_spec in M. rewrite F in M. exact (mro_of_closure _ _ _ _ M).
+Qed.
+
 Theorem class_lookup_sound st c n e :
-  Inv st -> flag st = false -> class_lookup st c n = Some e ->
+  Inv st -> consistent st -> flag st = false -> class_lookup st c n = Some e ->
   exists d, in_closure st c d /\
     match e with
     | EFeat f => declares_feat st d n f
@@ -621,9 +747,8 @@ Theorem class_lookup_sound st c n e :
     | EBeh _ => True
     end.
 Proof.
-  intros I F H. destruct (class_lookup_found _ _ _ _ H) as (l & d & M & Hd & E).
-  unfold mro in M. rewrite F in M.
-  apply (mro_of_closure _ _ _ _ M) in Hd.
+  intros I Co F H. destruct (class_lookup_found _ _ _ _ H) as (l & d & M & Hd & E).
+  apply (mro_closure _ _ _ Co F M) in Hd.
   unfold ns_of in E. destruct (getc st d) as [k|] eqn:G; [|discriminate].
   pose proof (getc_pos _ _ _ G) as P.
   exists d. split; [apply reach_bases_supers; [assumption|assumption|lia]|].
@@ -655,19 +780,19 @@ Qed.
 (* an instance shows nothing but what its class or a transitive supertype
    declares -- except for what its own dict still holds *)
 Theorem visible_sound st i n x :
-  Inv st -> flag st = false -> geti st i = Some x -> visible st i n ->
+  Inv st -> consistent st -> flag st = false -> geti st i = Some x -> visible st i n ->
   (exists d, in_closure st (i_cls x) d /\
      ((exists f, declares_feat st d n f) \/ (exists s, declares_op st d n s) \/
       (exists b, ns_get n (ns_of st d) = Some (EBeh b))))
   \/ has_slot st i n.
 Proof.
-  intros I F G V. destruct (visible_cases _ _ _ _ G V) as [(e & L)|H]; [left|right; assumption].
-  destruct (class_lookup_sound _ _ _ _ I F L) as (d & Hd & K).
+  intros I Co F G V. destruct (visible_cases _ _ _ _ G V) as [(e & L)|H]; [left|right; assumption].
+  destruct (class_lookup_sound _ _ _ _ I Co F L) as (d & Hd & K).
   destruct e as [f|s|b].
   - exists d. split; [assumption|]. left. exists f. assumption.
   - exists d. split; [assumption|]. right. left. exists s. assumption.
   - destruct (class_lookup_found _ _ _ _ L) as (l & d' & M & Hd' & E).
-    unfold mro in M. rewrite F in M. apply (mro_of_closure _ _ _ _ M) in Hd'.
+    apply (mro_closure _ _ _ Co F M) in Hd'.
     assert (P : d' <> 0).
     { intros Z0. subst. unfold ns_of in E. simpl in E. discriminate. }
     exists d'. split; [apply reach_bases_supers; assumption|]. right. right. exists b. assumption.
@@ -675,24 +800,24 @@ Qed.
 
 (* an instance that never touched the name sees it only if it is declared *)
 Corollary untouched_sound st i n x :
-  Inv st -> flag st = false -> geti st i = Some x -> ns_get n (i_dict x) = None ->
+  Inv st -> consistent st -> flag st = false -> geti st i = Some x -> ns_get n (i_dict x) = None ->
   visible st i n ->
   exists d, in_closure st (i_cls x) d /\
      ((exists f, declares_feat st d n f) \/ (exists s, declares_op st d n s) \/
       (exists b, ns_get n (ns_of st d) = Some (EBeh b))).
 Proof.
-  intros I F G D V. destruct (visible_sound _ _ _ _ I F G V) as [H|(x' & s & G' & D')]; [assumption|].
+  intros I Co F G D V. destruct (visible_sound _ _ _ _ I Co F G V) as [H|(x' & s & G' & D')]; [assumption|].
   rewrite G in G'. inversion G'; subst. congruence.
 Qed.
 
 (* ---------- isinstance ---------- *)
 
 Theorem isinstance_closure st i c x l :
-  Inv st -> flag st = false -> geti st i = Some x -> mro st (i_cls x) = Some l -> c <> 0 ->
+  Inv st -> consistent st -> flag st = false -> geti st i = Some x -> mro st (i_cls x) = Some l -> c <> 0 ->
   (isinstance_m st i c = true <-> in_closure st (i_cls x) c).
 Proof.
-  intros I F G M N. unfold isinstance_m. rewrite G, M. rewrite zmem_In.
-  unfold mro in M. rewrite F in M. rewrite (mro_of_closure _ _ _ _ M c).
+  intros I Co F G M N. unfold isinstance_m. rewrite G, M. rewrite zmem_In.
+  rewrite (mro_closure _ _ _ Co F M c).
   split; intros H; [apply reach_bases_supers|apply reach_supers_bases]; assumption.
 Qed.
 
@@ -721,23 +846,15 @@ Proof.
 Qed.
 
 (* a state that differs only in the namespace / declarations of class c *)
-Definition same_shape (k k' : cls) : Prop := c_bases k' = c_bases k.
-
-Lemma bases_fn_setc st c k k' x :
-  getc st c = Some k -> same_shape k k' -> bases_fn (setc st c k') x = bases_fn st x.
-Proof.
-  intros G Sh. unfold bases_fn. destruct (Z.eq_dec c x) as [E|N].
-  - subst. rewrite (getc_setc_same _ _ _ _ G), G. assumption.
-  - rewrite (getc_setc_other _ _ _ _ (getc_pos _ _ _ G) N). reflexivity.
-Qed.
+Definition same_shape (k k' : cls) : Prop := c_mro k' = c_mro k.
 
 Lemma mro_setc st c k k' d :
   getc st c = Some k -> same_shape k k' -> mro (setc st c k') d = mro st d.
 Proof.
-  intros G Sh. unfold mro.
-  assert (F : fuel_of (setc st c k') = fuel_of st).
-  { unfold fuel_of, nclasses, setc. simpl. rewrite set_at_length. reflexivity. }
-  rewrite F. apply mro_of_ext. intros x. eapply bases_fn_setc; eauto.
+  intros G Sh. unfold mro. destruct (d =? 0); [reflexivity|].
+  destruct (Z.eq_dec c d) as [E|N].
+  - subst. rewrite (getc_setc_same _ _ _ _ G), G. f_equal. assumption.
+  - rewrite (getc_setc_other _ _ _ _ (getc_pos _ _ _ G) N). reflexivity.
 Qed.
 
 Lemma ns_of_setc_other st c k' d : 0 < c -> c <> d -> ns_of (setc st c k') d = ns_of st d.
@@ -861,7 +978,7 @@ Record cls_full (k : cls) : Prop := {
                ns_get (op_key o) (c_ns k) = Some (EFun s) \/ exists b, ns_get (op_key o) (c_ns k) = Some (EBeh b)
 }.
 
-Definition Full (st : state) : Prop := Forall cls_full (classes st).
+Definition Full (st : state) : Prop := forall c k, getc st c = Some k -> cls_full k.
 
 (* well-formed edits: one declaration per name and class (Ecore), behaviours
    are not attached under the name of a feature of the class *)
@@ -874,10 +991,14 @@ Definition wf_op (st : state) (o : op) : Prop :=
   end.
 
 Lemma Full_getc st c k : Full st -> getc st c = Some k -> cls_full k.
-Proof. intros H G. apply getc_In in G. unfold Full in H. rewrite Forall_forall in H. auto. Qed.
+Proof. intros H G. eapply H; eauto. Qed.
 
-Lemma Full_setc st c k : Full st -> cls_full k -> Full (setc st c k).
-Proof. intros H K. unfold Full, setc. simpl. apply Forall_set_at; assumption. Qed.
+Lemma Full_setc st c k0 k : Full st -> getc st c = Some k0 -> cls_full k -> Full (setc st c k).
+Proof.
+  intros H G K d kd Gd. destruct (Z.eq_dec c d) as [E|N].
+  - subst. rewrite (getc_setc_same _ _ _ _ G) in Gd. inversion Gd; subst. assumption.
+  - rewrite (getc_setc_other _ _ _ _ (getc_pos _ _ _ G) N) in Gd. eapply H; eauto.
+Qed.
 
 Lemma cls_full_shape k k' :
   c_feats k' = c_feats k -> c_ops k' = c_ops k -> c_ns k' = c_ns k -> cls_full k -> cls_full k'.
@@ -888,29 +1009,42 @@ Proof.
   - rewrite E2, E3. exact F3.
 Qed.
 
-Lemma Full_set_bases st c bs : Full st -> Full (set_bases st c bs).
+Lemma Full_steqv st st' : steqv st st' -> Full st -> Full st'.
 Proof.
-  intros H. unfold set_bases. destruct (getc st c) as [k|] eqn:G; [|assumption].
-  apply Full_setc; [assumption|]. eapply cls_full_shape; [| | |eapply Full_getc; eauto]; reflexivity.
+  intros E I c k' G. specialize (E c). rewrite G in E. unfold orel in E.
+  destruct (getc st c) as [k|] eqn:G0; [|destruct E].
+  destruct E as (E1 & E2 & _ & E4 & _). eapply cls_full_shape; eauto.
 Qed.
 
 Lemma Full_set_supers st c ss : Full st -> Full (set_supers st c ss).
 Proof.
   intros H. unfold set_supers. destruct (getc st c) as [k|] eqn:G; [|assumption].
-  apply Full_setc; [assumption|]. eapply cls_full_shape; [| | |eapply Full_getc; eauto]; reflexivity.
+  apply (Full_setc _ _ k); [assumption|assumption|].
+  eapply cls_full_shape; [| | |eapply Full_getc; eauto]; reflexivity.
 Qed.
 
 Lemma Full_update_supertypes st c st' r : Full st -> update_supertypes st c = (st', r) -> Full st'.
 Proof.
-  intros H U. unfold update_supertypes in U.
-  repeat match type of U with
-         | context [assign ?a ?b ?d] => let A := fresh "A" in destruct (assign a b d) eqn:A;
-             [apply assign_eq in A; subst|]
-         end; inversion U; subst; try apply Full_set_bases; exact H.
+  intros H U. destruct (update_supertypes_spec _ _ _ _ U) as [[_ E]|(_ & k & bs & G & _ & E)].
+  - eapply Full_steqv; eauto.
+  - eapply Full_steqv; [exact E|]. apply (Full_setc _ _ k); [assumption|assumption|].
+    eapply cls_full_shape; [| | |eapply Full_getc; eauto]; reflexivity.
 Qed.
 
 Lemma Full_classes_eq st st' : classes st' = classes st -> Full st -> Full st'.
-Proof. unfold Full. intros ->. tauto. Qed.
+Proof. intros E I c k G. rewrite (getc_classes_eq _ _ _ E) in G. eapply I; eauto. Qed.
+
+Lemma getc_app_last st kx is_ fl d k :
+  getc (mkState (classes st ++ [kx]) is_ fl) d = Some k -> getc st d = Some k \/ k = kx.
+Proof.
+  unfold getc. simpl classes. destruct (Z.leb_spec d 0); [discriminate|]. intros G.
+  destruct (Nat.lt_ge_cases (idx d) (length (classes st))) as [L|L].
+  - rewrite nth_error_app1 in G by assumption. left. assumption.
+  - rewrite nth_error_app2 in G by assumption.
+    destruct (idx d - length (classes st))%nat as [|m]; simpl in G.
+    + inversion G. right. reflexivity.
+    + destruct m; discriminate.
+Qed.
 
 Lemma remove_feat_split n fs fs' :
   remove_feat n fs = Some fs' -> exists l1 f l2, fs = l1 ++ f :: l2 /\ fs' = l1 ++ l2 /\ f_name f = n.
@@ -974,8 +1108,8 @@ Proof.
     unfold new_class in St.
     match type of St with context [update_supertypes ?s1 ?c1] =>
       destruct (update_supertypes s1 c1) as [st2 e] eqn:U; assert (F1 : Full s1) end.
-    { unfold Full. simpl. apply Forall_app. split; [exact Fu|]. constructor; [|constructor].
-      constructor; simpl; [constructor|intros f []|intros o s []]. }
+    { intros d k G. apply getc_app_last in G. destruct G as [G|G]; [eapply Fu; eauto|].
+      subst. constructor; simpl; [constructor|intros f []|intros o s []]. }
     pose proof (Full_update_supertypes _ _ _ _ F1 U). destruct e; inversion St; subst; assumption.
   - (* AddSuper *)
     destruct (getc st c) as [k|] eqn:G; [|inversion St; subst; assumption].
@@ -990,7 +1124,7 @@ Proof.
     pose proof (Full_update_supertypes _ _ _ _ F1 U). destruct e; inversion St; subst; assumption.
   - (* AddFeat *)
     destruct (getc st c) as [k|] eqn:G; [|inversion St; subst; assumption].
-    inversion St; subst. apply Full_setc; [assumption|].
+    inversion St; subst. apply (Full_setc _ _ k); [assumption|assumption|].
     specialize (WF k G). destruct (Full_getc _ _ _ Fu G) as [F1 F2 F3].
     assert (Nf : forall g, In g (c_feats k) -> f_name f <> f_name g).
     { intros g Hg E. apply WF. unfold declared_names. apply in_or_app. left. rewrite E. apply in_map. assumption. }
@@ -1012,7 +1146,7 @@ Proof.
     { rewrite <- E3. apply F2. rewrite E1. apply in_or_app. right. left. reflexivity. }
     simpl in St. destruct (ns_del n (c_ns k)) as [ns'|] eqn:D.
     2:{ apply ns_del_None in D. congruence. }
-    inversion St; subst. apply Full_setc; [assumption|].
+    inversion St; subst. apply (Full_setc _ _ k); [assumption|assumption|].
     destruct (ns_del_spec _ _ _ D (ok_keys _ (Inv_getc _ _ _ I G))) as (D1 & D2 & D3 & D4).
     unfold declared_names in F1. rewrite E1 in F1. rewrite map_app in F1. simpl in F1. rewrite <- app_assoc in F1. simpl in F1.
     pose proof (NoDup_remove_1 _ _ _ F1) as U1. pose proof (NoDup_remove_2 _ _ _ F1) as U2.
@@ -1028,7 +1162,7 @@ Proof.
     destruct (getc st c) as [k|] eqn:G; [|inversion St; subst; assumption].
     destruct (Full_getc _ _ _ Fu G) as [F1 F2 F3]. simpl in St.
     destruct (del_all (c_ns k) (map f_name (c_feats k))) as [ns' ok] eqn:D.
-    inversion St; subst. apply Full_setc; [assumption|].
+    inversion St; subst. apply (Full_setc _ _ k); [assumption|assumption|].
     pose proof (del_all_others _ _ _ _ D (ok_keys _ (Inv_getc _ _ _ I G))) as O.
     constructor; simpl.
     + unfold declared_names in *. simpl. eapply NoDup_app_r; eauto.
@@ -1048,10 +1182,10 @@ Proof.
       eapply Permutation_NoDup; [apply Permutation_cons_append|]. constructor; assumption. }
     assert (G1 : getc (setc st c k1) c = Some k1) by (eapply getc_setc_same; eauto).
     destruct (py_def (to_code (o_name o) (o_params o))) as [[]|s] eqn:PD.
-    + inversion St; subst. apply Full_setc; [assumption|]. constructor; simpl; [assumption|assumption|].
+    + inversion St; subst. apply (Full_setc _ _ k); [assumption|assumption|]. constructor; simpl; [assumption|assumption|].
       intros o' s' Ho PD'. apply in_app_or in Ho. destruct Ho as [Ho|[Ho|[]]]; [apply F3; assumption|].
       subst. congruence.
-    + inversion St; subst. unfold upd_cls. rewrite G1. rewrite setc_twice. apply Full_setc; [assumption|].
+    + inversion St; subst. unfold upd_cls. rewrite G1. rewrite setc_twice. apply (Full_setc _ _ k); [assumption|assumption|].
       constructor; simpl; [assumption| |].
       * intros g Hg. rewrite ns_get_set_other by (apply Nf; assumption). apply F2. assumption.
       * intros o' s' Ho PD'. apply in_app_or in Ho. destruct Ho as [Ho|[Ho|[]]].
@@ -1076,7 +1210,7 @@ Proof.
     assert (Sub : forall o, In o os -> In o (c_ops k)).
     { intros o Ho. rewrite E1. rewrite E2 in Ho. apply in_app_or in Ho. apply in_or_app. destruct Ho; [left|right; right]; assumption. }
     simpl in St. destruct (ns_del (normalized_name n) (c_ns k)) as [ns'|] eqn:D; inversion St; subst;
-      (apply Full_setc; [assumption|]).
+      (apply (Full_setc _ _ k); [assumption|assumption|]).
     + destruct (ns_del_spec _ _ _ D (ok_keys _ (Inv_getc _ _ _ I G))) as (D1 & D2 & D3 & D4).
       constructor; simpl; [exact U| |].
       * intros g Hg. rewrite D3 by (apply Nf; assumption). apply F2. assumption.
@@ -1086,7 +1220,7 @@ Proof.
     destruct (getc st c) as [k|] eqn:G; [|inversion St; subst; assumption].
     destruct (Full_getc _ _ _ Fu G) as [F1 F2 F3]. simpl in St.
     destruct (del_all (c_ns k) (map (fun o => normalized_name (o_name o)) (c_ops k))) as [ns' ok] eqn:D.
-    inversion St; subst. apply Full_setc; [assumption|].
+    inversion St; subst. apply (Full_setc _ _ k); [assumption|assumption|].
     pose proof (del_all_others _ _ _ _ D (ok_keys _ (Inv_getc _ _ _ I G))) as O.
     constructor; simpl.
     + unfold declared_names in *. simpl. rewrite app_nil_r. eapply NoDup_app_l; eauto.
@@ -1095,7 +1229,7 @@ Proof.
     + intros o s [].
   - (* Attach *)
     destruct (getc st c) as [k|] eqn:G; [|inversion St; subst; assumption].
-    inversion St; subst. apply Full_setc; [assumption|].
+    inversion St; subst. apply (Full_setc _ _ k); [assumption|assumption|].
     specialize (WF k G). destruct (Full_getc _ _ _ Fu G) as [F1 F2 F3].
     constructor; simpl; [assumption| |].
     + intros f Hf. rewrite ns_get_set_other; [apply F2; assumption|].
@@ -1121,7 +1255,7 @@ Proof.
 Qed.
 
 Lemma Full_empty fl : Full (empty_state fl).
-Proof. constructor. Qed.
+Proof. intros c k G. unfold getc, empty_state in G. simpl in G. destruct (c <=? 0); [discriminate|]. destruct (idx c); discriminate. Qed.
 
 Fixpoint wf_history (ops : list op) (st : state) : Prop :=
   match ops with
@@ -1169,22 +1303,21 @@ Lemma declares_op_pos st d n s : declares_op st d n s -> d <> 0.
 Proof. intros (o & H & _) E. subst. unfold ops_of in H. simpl in H. destruct H. Qed.
 
 Lemma in_closure_in_mro st c d l :
-  Inv st -> flag st = false -> mro st c = Some l -> in_closure st c d -> d <> 0 -> In d l.
+  Inv st -> consistent st -> flag st = false -> mro st c = Some l -> in_closure st c d -> d <> 0 -> In d l.
 Proof.
-  intros I F M R N. unfold mro in M. rewrite F in M.
-  apply (mro_of_closure _ _ _ _ M). apply reach_supers_bases; assumption.
+  intros I Co F M R N. apply (mro_closure _ _ _ Co F M). apply reach_supers_bases; assumption.
 Qed.
 
 (* a feature or (well-formed) operation declared by the class or by a
    transitive supertype is found by the class lookup *)
 Theorem declared_is_found st c l d n :
-  Inv st -> Full st -> flag st = false -> mro st c = Some l -> in_closure st c d ->
+  Inv st -> Full st -> consistent st -> flag st = false -> mro st c = Some l -> in_closure st c d ->
   ((exists f, declares_feat st d n f) \/ (exists s, declares_op st d n s)) ->
   exists e, class_lookup st c n = Some e.
 Proof.
-  intros I Fu F M R D.
+  intros I Fu Co F M R D.
   assert (N : d <> 0) by (destruct D as [(f & D)|(s & D)]; [eapply declares_feat_pos|eapply declares_op_pos]; eauto).
-  pose proof (in_closure_in_mro _ _ _ _ I F M R N) as Hd.
+  pose proof (in_closure_in_mro _ _ _ _ I Co F M R N) as Hd.
   unfold class_lookup. rewrite M.
   destruct D as [(f & Hf & En)|(s & o & Ho & En & PD)].
   - unfold feats_of in Hf. destruct (getc st d) as [k|] eqn:G; [|destruct Hf].
@@ -1200,13 +1333,13 @@ Qed.
    provides the name, the lookup finds that very feature, and an instance
    that holds no slot of that name reads the declared default, single or many *)
 Theorem declared_feature_lookup st c l d n f :
-  Inv st -> Full st -> flag st = false -> mro st c = Some l -> in_closure st c d ->
+  Inv st -> Full st -> consistent st -> flag st = false -> mro st c = Some l -> in_closure st c d ->
   declares_feat st d n f ->
   (forall z, In z l -> z <> d -> ns_get n (ns_of st z) = None) ->
   class_lookup st c n = Some (EFeat f).
 Proof.
-  intros I Fu F M R D U.
-  pose proof (in_closure_in_mro _ _ _ _ I F M R (declares_feat_pos _ _ _ _ D)) as Hd.
+  intros I Fu Co F M R D U.
+  pose proof (in_closure_in_mro _ _ _ _ I Co F M R (declares_feat_pos _ _ _ _ D)) as Hd.
   unfold class_lookup. rewrite M. destruct D as [Hf En].
   unfold feats_of in Hf. destruct (getc st d) as [k|] eqn:G; [|destruct Hf].
   apply (first_some_unique _ _ d); [assumption| |assumption].
@@ -1222,12 +1355,12 @@ Proof.
 Qed.
 
 Theorem declared_is_visible st i x l d n :
-  Inv st -> Full st -> flag st = false -> geti st i = Some x -> mro st (i_cls x) = Some l ->
+  Inv st -> Full st -> consistent st -> flag st = false -> geti st i = Some x -> mro st (i_cls x) = Some l ->
   in_closure st (i_cls x) d ->
   ((exists f, declares_feat st d n f) \/ (exists s, declares_op st d n s)) ->
   visible st i n.
 Proof.
-  intros I Fu F G M R D. destruct (declared_is_found _ _ _ _ _ I Fu F M R D) as (e & L).
+  intros I Fu Co F G M R D. destruct (declared_is_found _ _ _ _ _ I Fu Co F M R D) as (e & L).
   unfold visible, getattr_m. rewrite G, L.
   destruct e as [f|s|b]; destruct (ns_get n (i_dict x)) as [[? ?|? ?|?]|]; simpl; try discriminate.
   unfold default_slot. destruct (f_many f); discriminate.
@@ -1235,15 +1368,15 @@ Qed.
 
 (* exactly: for an instance that holds no slot of the name *)
 Theorem visible_iff_declared st i x l n :
-  Inv st -> Full st -> flag st = false -> geti st i = Some x -> mro st (i_cls x) = Some l ->
+  Inv st -> Full st -> consistent st -> flag st = false -> geti st i = Some x -> mro st (i_cls x) = Some l ->
   ns_get n (i_dict x) = None ->
   (forall d b, ns_get n (ns_of st d) = Some (EBeh b) -> exists s, declares_op st d n s) ->
   (visible st i n <->
    exists d, in_closure st (i_cls x) d /\
      ((exists f, declares_feat st d n f) \/ (exists s, declares_op st d n s))).
 Proof.
-  intros I Fu F G M D NB. split.
-  - intros V. destruct (untouched_sound _ _ _ _ I F G D V) as (d & R & [H|[H|(b & H)]]).
+  intros I Fu Co F G M D NB. split.
+  - intros V. destruct (untouched_sound _ _ _ _ I Co F G D V) as (d & R & [H|[H|(b & H)]]).
     + exists d. tauto.
     + exists d. tauto.
     + exists d. split; [assumption|]. right. eapply NB; eauto.
